@@ -168,3 +168,11 @@ func Observe(tag string, v uint64) { fmt.Printf("VERIF-OBSERVE %s %d\n", tag, v)
 
 // ObserveStr logs a string value.
 func ObserveStr(tag string, s string) { fmt.Printf("VERIF-OBSERVE %s %q\n", tag, s) }
+
+// SymLenBytes returns a zero-filled byte slice of arbitrary length in [0,max].
+// Under the executor the length is a solver variable and the content is irrelevant.
+func SymLenBytes(name string, max int) []byte {
+	n := int(get(name))
+	Assume(n >= 0 && n <= max)
+	return make([]byte, n)
+}
